@@ -88,6 +88,46 @@ fn o_program(c: &ProgramCase, st: &mut Stats) -> Result<(), String> {
     Ok(())
 }
 
+/// Two builds directly after one another on one thread, for every ordered pair of short type strings
+/// (1 and 2 characters over the type alphabet plus two capitals and an invalid character): whatever
+/// one type parameter remembers from the previous call - a memo keyed by something weaker than the
+/// text - shows as a difference between the parameters on the second build. Short strings over a
+/// full alphabet contain the collisions of every simple string hash (polynomial, xor / rotate, sum).
+#[derive(Clone, Debug, serde::Serialize, serde::Deserialize)]
+pub struct TypePair {
+    pub first: String,
+    pub second: String,
+}
+
+const PAIR_ALPHABET: &[u8] = b"abcdefghijklmnopqrstuvwxyz0123456789.+-AZ~";
+
+fn short_type_count() -> u64 {
+    let k = PAIR_ALPHABET.len() as u64;
+    k + k * k
+}
+
+fn short_type_at(mut i: u64) -> String {
+    let k = PAIR_ALPHABET.len() as u64;
+    let mut s = String::new();
+    if i < k {
+        s.push(PAIR_ALPHABET[i as usize] as char);
+    } else {
+        i -= k;
+        s.push(PAIR_ALPHABET[(i % k) as usize] as char);
+        s.push(PAIR_ALPHABET[(i / k) as usize] as char);
+    }
+    s
+}
+
+fn o_type_pair(c: &TypePair, st: &mut Stats) -> Result<(), String> {
+    let first = crate::buildprog::Program { ty: c.first.clone(), name: "n".into(), ops: vec![] };
+    let _ = (run::<IStr>(&first).0, run::<ICowB>(&first).0, run::<ICowO>(&first).0, run::<ISmall>(&first).0);
+    let second = ProgramCase { program: crate::buildprog::Program { ty: c.second.clone(), name: "n".into(), ops: vec![] }, typed: false };
+    o_program(&second, st).map_err(|m| format!("directly after building with the type {:?}: {m}", c.first))?;
+    st.class("consecutive-pair");
+    Ok(())
+}
+
 pub fn sections() -> Vec<Box<dyn Section>> {
     vec![
         Box::new(Random {
@@ -120,6 +160,17 @@ pub fn sections() -> Vec<Box<dyn Section>> {
             make: Box::new(|t: Tier, i| strata_make(&strata(t.pick(4, 5), t.pick(5, 6)), i)),
             oracle: o_string,
             required: vec!["both-accept", "both-refuse"],
+            complete: true,
+        }),
+        Box::new(Enumerated {
+            name: "consecutive-builds-every-pair-of-short-types".into(),
+            total: Box::new(|_| short_type_count() * short_type_count()),
+            make: Box::new(|_, i| {
+                let n = short_type_count();
+                Some(TypePair { first: short_type_at(i / n), second: short_type_at(i % n) })
+            }),
+            oracle: o_type_pair,
+            required: vec!["consecutive-pair"],
             complete: true,
         }),
         Box::new(Random {
